@@ -21,7 +21,7 @@ RULE = (
     "one interior point dropped and one kept; distinct by canonical JSON."
 )
 ASSUMPTIONS = [
-    "clean: distinct rows >= 1e-3 K apart (exact repeats of a row allowed), enthalpy steps are 0 or >= 0.05 (nothing inside the 1e-6 tolerance band except exact repeats)",
+    "clean: distinct rows >= 1e-3 K apart (exact repeats of a row allowed), enthalpy steps are 0 or >= 0.05 (nothing inside the 1e-6 tolerance band except exact repeats); class small-span: enthalpy steps 0.0075-0.3, points either on their straight piece up to 6-dp rounding or >= 1e-5 K off it",
     "linearise: the one-sided bound is evaluated where enthalpy is strictly monotone (no vertical steps), at the abscissae of both polylines",
     "distances are Euclidean in the (h, T) plane as used by the routine itself (perpendicular distance of Ramer-Douglas-Peucker)",
 ]
@@ -122,6 +122,8 @@ def eval_clean(case) -> Outcome:
     n = len(T)
     if "repeats" in case.get("shape", ""):
         out.labels.add("repeated-points")
+    if case.get("shape") == "small-span":
+        out.labels.add("small-span" + ("+lifted-point" if case.get("lifted") else ""))
     ok, res = call_sut(clean_composite_curve, list(T), list(H))
     if not ok:
         out.fail("C17.sut_exception:" + res, f"clean_composite_curve raised {res}: {call_sut.last_message}")
@@ -176,9 +178,45 @@ def eval_clean(case) -> Outcome:
 
 
 @st.composite
+def small_span_curve(draw):
+    """Enthalpy in a large unit (MW, GJ/h): steps of 0.01-0.3 so that the span between a kept point and the next one is
+    below 1, straight pieces with clear kinks between them, and isolated interior points lifted off their piece by
+    1e-5..1e-4 K - ten to a hundred times the 1e-6 tolerance, so they must survive.  Every other point is on its piece
+    up to the 6-dp rounding (5e-7), i.e. inside the tolerance.  Neighbouring steps differ by at most a factor 2 and lifted
+    points are never adjacent, which keeps neighbour-by-neighbour drift (finding C17-F1) out of this class."""
+    npieces = draw(st.integers(1, 3))
+    base = draw(st.sampled_from([0.01, 0.02, 0.05, 0.1, 0.2]))
+    slopes = draw(st.permutations([0.2, 0.35, 0.5, 0.75, 1.0]))[:npieces]
+    h = float(draw(st.sampled_from([1.0, 2.5, 10.0, 40.0])))
+    t = float(draw(st.integers(100, 400)))
+    H, T, lifted = [round(h, 6)], [round(t, 6)], []
+    for sl in slopes:
+        m = draw(st.integers(3, 8))  # points after the piece's first anchor; the last one is the next anchor
+        h0, t0 = h, t
+        prev_lift = False
+        for j in range(1, m + 1):
+            step = base * draw(st.sampled_from([1.0, 1.0, 1.5, 0.75]))
+            h = h - step
+            on_line = t0 - sl * (h0 - h)
+            d = 0.0
+            if j < m and not prev_lift and draw(st.integers(0, 2)) == 0:
+                d = draw(st.sampled_from([1e-5, 2e-5, 5e-5, 1e-4])) * draw(st.sampled_from([1.0, -1.0]))
+            prev_lift = d != 0.0
+            H.append(round(h, 6))
+            T.append(round(on_line + d, 6))
+            if d:
+                lifted.append(len(H) - 1)
+        t = t0 - sl * (h0 - h)  # the next piece starts on this one's line
+        h = H[-1]
+    return {"T": T, "H": H, "shape": "small-span", "lifted": lifted}
+
+
+@st.composite
 def composite_curve(draw, tier):
     nmax = 120 if tier == "quick" else 500
-    shape = draw(st.sampled_from(["kinks", "kinks", "bow", "bow-fine", "steps", "nonmono"]))
+    shape = draw(st.sampled_from(["kinks", "kinks", "bow", "bow-fine", "steps", "nonmono", "small-span", "small-span"]))
+    if shape == "small-span":
+        return draw(small_span_curve())
     n = draw(st.integers(3, 40 if shape != "bow-fine" else nmax))
     top = float(draw(st.integers(100, 400)))
     gaps = draw(st.lists(st.sampled_from([0.5, 1.0, 1.0, 2.0, 5.0, 0.01, 10.0]), min_size=n - 1, max_size=n - 1)) if shape != "bow-fine" else [draw(st.sampled_from([0.25, 0.5, 1.0]))] * (n - 1)
